@@ -13,11 +13,14 @@ static void any_boundaries(m::HistogramAggregationConfig &cfg) {
   for (int i = 0; i < NB; i++) { double b = any_finite(); if (i) VASSUME(prev < b); cfg.boundaries_.push_back(b); prev = b; }
   cfg.record_min_max_ = true;
 }
-// exact  b < v  for double b and integer v (no rounding of v)
+// exact  b < v  for double b and integer v (no rounding of v). The conversion sits in a call: LLVM may hoist a bare float->int
+// conversion above the range tests that guard it (poison when unused, not UB), and the translator reports an out-of-range conversion
+// where it stands in the IR.
+static __attribute__((noinline)) int64_t trunc_in_range(double x) { return (int64_t)x; }
 static bool lt_double_int(double b, int64_t v) {
   if (b >= 9223372036854775808.0) return false;
   if (b < -9223372036854775808.0) return true;
-  int64_t t = (int64_t)b;            // toward zero, exact
+  int64_t t = trunc_in_range(b);     // toward zero, exact
   int64_t fl = ((double)t > b) ? t - 1 : t;
   return fl < v;
 }
